@@ -157,14 +157,15 @@ def run(chk):
     tier = chk.tier
     failed = []
     if os.path.exists(os.path.join(vlib.COQ, "theories/Properties/C14.v")):
-        vlib.build_harness(["gentables"])
+        vlib.build_harness(["gentables", "c14dump"])
         vlib.gen_tables(["locality"])
         failed = chk.prove("theories/Properties/C14.v")
         okf, _ = vlib.build_coq(["theories/Properties/C14Findings.vo"])
         if not okf["theories/Properties/C14Findings.vo"]:
             chk.notes.append("stale_known_finding: Properties/C14Findings.v (refutation lemmas over the regenerated tables: builtin calls / "
                              "Convert always Local, checkEscape skips calls, Defer unhandled) no longer compiles - a listed defect was repaired")
-    vlib.build_harness(["c14dump"])
+    if not os.path.exists(os.path.join(vlib.COQ, "theories/Properties/C14.v")):
+        vlib.build_harness(["c14dump"])
     work = os.path.join(vlib.BUILD, "c14")
     shutil.rmtree(work, ignore_errors=True)
     os.makedirs(work)
